@@ -215,10 +215,35 @@ class Sym:
     def mk_ite(self, c, a, b):
         if a == b:
             return a
+        T, F = ("lit", "true"), ("lit", "false")
+        if a == T and b == F:
+            return c
+        if a == F and b == T:
+            return self.mk_not(c)
+        if a == T:
+            return self.mk_bin("Or", c, b)
+        if b == F:
+            return self.mk_bin("And", c, a)
+        if a == F:
+            return self.mk_bin("And", self.mk_not(c), b)
+        if b == T:
+            return self.mk_bin("Or", self.mk_not(c), a)
         c, sw = self.polarity(c)
         if sw:
             a, b = b, a
         return ("ite", c, a, b)
+
+    def mk_matchv(self, sc, arms):
+        """value of a match; `match x {Some(_) => x.Some == v, _ => false}` is `x == Some(v)`"""
+        arms = tuple(arms)
+        if len(arms) == 2 and arms[0][0] == "Some(_)" and arms[1][0] == "_" and arms[1][1] == ("lit", "false"):
+            e = arms[0][1]
+            p0 = ("proj", sc, "Some", 0)
+            if e[0] == "bin" and e[1] == "Eq" and p0 in (e[2], e[3]):
+                other = e[3] if e[2] == p0 else e[2]
+                if repr(p0) not in repr(other):
+                    return self.mk_bin("Eq", sc, ("ctor", "Some", (other,)))
+        return ("matchv", sc, arms)
 
     # ------------------------------------------------------------------ helpers
     def new_op(self, name, args, at, res=None, emit=True):
@@ -276,7 +301,10 @@ class Sym:
             return self.lit(p)[1]
         if k in ("ptuple", "por", "pslice"):
             sep = " | " if k == "por" else ", "
-            return "(" + sep.join(self.pat_str(x) for x in p[2:]) + ")"
+            subs = [self.pat_str(x) for x in p[2:]]
+            if k == "ptuple" and subs and all(x == "_" for x in subs):
+                return "_"
+            return "(" + sep.join(subs) + ")"
         if k in ("pref", "pderef"):
             return self.pat_str(p[2])
         if k == "prange":
@@ -598,6 +626,11 @@ class Sym:
             b1 = self.branch(lambda: self.ev_body(bt[-1], tail))
             b2 = self.branch(lambda: self.ev_body(bf[-1], tail))
             return self.join2(sc, b1, b2, at)
+        # two disjoint arms on an Option / Result: Some / Ok first
+        if len(arms) == 2 and not any(a[1].get("guard") for a in arms):
+            p0, p1 = self.pat_str(arms[0][2]), self.pat_str(arms[1][2])
+            if (p0 == "None" and p1.startswith("Some(")) or (p0.startswith("Err(") and p1.startswith("Ok(")):
+                arms = [arms[1], arms[0]]
         # match x { P if g => E, _ => {} }  ==  match x { P => if g { E }, _ => {} }
         if len(arms) == 2 and arms[0][1].get("guard") and not arms[1][1].get("guard") and arms[1][2][0] == "pwild" \
                 and not callable(arms[1][-1]) and arms[1][-1][0] == "block" and len(arms[1][-1]) == 2:
@@ -687,14 +720,14 @@ class Sym:
                 for k in set(env) | set(results[i][3]):
                     a_, b_ = env.get(k), results[i][3].get(k)
                     if a_ is not None and b_ is not None and a_ != b_:
-                        env[k] = ("matchv", sc, tuple((names[j], results[j][3].get(k, ("unit",))) for j in live))
+                        env[k] = self.mk_matchv(sc, tuple((names[j], results[j][3].get(k, ("unit",))) for j in live))
                     elif a_ is None:
                         env[k] = b_
         self.env = env
         vals = [(names[i], results[i][1], results[i][4] if not results[i][5] else ("never",)) for i in range(len(results))]
         if all(v[2] == vals[live[0]][2] for j, v in enumerate(vals) if j in live) and not guards_present and vals[live[0]][2] == ("unit",):
             return ("unit",)
-        return ("matchv", sc, tuple((p, v) if g is None else (p + " if " + self.show(g), v) for p, g, v in vals))
+        return self.mk_matchv(sc, tuple((p, v) if g is None else (p + " if " + self.show(g), v) for p, g, v in vals))
 
     def ev_try(self, n):
         inner = H.try_inner(n)
@@ -722,6 +755,8 @@ class Sym:
         """application of a function value to arguments: beta-reduction for effect-free lambdas, a constructor / call otherwise"""
         if f[0] == "lam" and not f[3] and f[2] == len(args):
             return self.subst_bv(f[4], f[1], args)
+        if f[0] == "lam" and not f[3] and f[2] == 0:
+            return f[4]
         if f[0] == "path":
             return ("call", f[1], (), tuple(args))
         if f[0] == "ctor" and not f[2]:
@@ -822,11 +857,99 @@ class Sym:
         eff = self.cur
         self.cur = saved
         self.env = env0
-        self.cur.append(("loop", lid_, kind, header, [(i, init[l]) for i, l in enumerate(carried)], eff, at))
+        inits = [(i, init[l]) for i, l in enumerate(carried)]
+        if kind == "while":
+            eff, inits = self.rotate_flag_loop(lid_, eff, inits)
+        self.cur.append(("loop", lid_, kind, header, inits, eff, at))
         self.loop_log.append(self.cur[-1])
         for i, l in enumerate(carried):
             self.env[l] = ("after", lid_, i)
         return ("unit",)
+
+    def subst_term(self, v, old, new):
+        if v == old:
+            return new
+        if isinstance(v, tuple):
+            return tuple(self.subst_term(x, old, new) for x in v)
+        if isinstance(v, list):
+            return [self.subst_term(x, old, new) for x in v]
+        return v
+
+    def rotate_flag_loop(self, lid_, eff, inits):
+        """`let mut done = false; while !done { ..; done = e }` is `loop { ..; if e { break } }`: when the guard at the top
+        tests a carried flag whose initial value lets the first iteration run and that is used for nothing else, the
+        test moves to the end of the iteration and the flag disappears"""
+        if not eff or eff[0][0] != "guard" or len(eff[0][2]) != 1 or eff[0][2][0][0] != "break":
+            return eff, inits
+        cond = eff[0][1]
+        init = dict(inits)
+        phis = [k for k in init if repr(("phi", lid_, k)) in repr(cond)]
+        if len(phis) != 1:
+            return eff, inits
+        k = phis[0]
+        phi = ("phi", lid_, k)
+        if init[k] not in (("lit", "true"), ("lit", "false")):
+            return eff, inits
+        first = self.subst_term(cond, phi, init[k])
+        first = self.simplify_bool(first)
+        if first != ("lit", "true") or eff[0][2][0][2]:
+            return eff, inits
+        rest = eff[1:]
+
+        def strip(es):
+            """remove the flag from snapshots, collect where else it occurs"""
+            out = []
+            for e in es:
+                if e[0] in ("next", "break") and e[1] == lid_:
+                    snap = tuple(x for x in e[2] if x[0] != k)
+                    newv = dict(e[2]).get(k, phi)
+                    if e[0] == "next":
+                        c2 = self.simplify_bool(self.subst_term(cond, phi, newv))
+                        if c2 != ("lit", "true"):
+                            if c2 == ("lit", "false"):
+                                out.append(("break", lid_, snap, e[3]))
+                                continue
+                            out.append(("guard", c2, [("break", lid_, snap, e[3])], e[3]))
+                    out.append((e[0], lid_, snap, e[3]))
+                elif e[0] == "if":
+                    out.append(("if", e[1], strip(e[2]), strip(e[3]), e[4]))
+                elif e[0] == "guard":
+                    out.append(("guard", e[1], strip(e[2]), e[3]))
+                elif e[0] == "match":
+                    out.append(("match", e[1], [(p_, g_, strip(sub)) for p_, g_, sub in e[2]], e[3]))
+                elif e[0] == "scope":
+                    out.append(("scope", e[1], strip(e[2]), e[3]))
+                else:
+                    out.append(e)
+            return out
+        new = strip(rest)
+        if repr(phi) in repr(new) or any(repr(phi) in repr(self.ops[e[1]].args) for e in self._ops_in(new)):
+            return eff, inits
+        return new, [(i, v) for i, v in inits if i != k]
+
+    def _ops_in(self, es):
+        out = []
+        for e in es:
+            if e[0] == "op":
+                out.append(e)
+            elif e[0] == "if":
+                out += self._ops_in(e[2]) + self._ops_in(e[3])
+            elif e[0] == "guard":
+                out += self._ops_in(e[2])
+            elif e[0] == "match":
+                for arm in e[2]:
+                    out += self._ops_in(arm[2])
+            elif e[0] in ("scope",):
+                out += self._ops_in(e[2])
+            elif e[0] == "loop":
+                out += self._ops_in(e[5])
+        return out
+
+    def simplify_bool(self, v):
+        if v[0] == "un" and v[1] == "Not":
+            x = self.simplify_bool(v[2])
+            return self.mk_not(x)
+        return v
 
     def snapshot(self, lid_, carried):
         out = []
@@ -1167,6 +1290,11 @@ class Sym:
             t = short_ty(self.ty(a.get("ty", "")))
             if "GDError" in t:
                 return v
+            if re.match(r"^([iu](8|16|32|64|128|size)|f32|f64)$", t):
+                # integer / float `From` exists only where it is lossless: the same value as the widening `as`
+                if v[0] == "lit" and re.match(r"^\d+$", v[1]):
+                    return v
+                return ("conv", t, v)     # rendered like a cast; rules that care (C15) know it cannot lose information
             return ("call", "into<%s>" % t, (), (v,))
         if target.startswith("gamedig::errors::"):
             vals = [self.ev(x) for x in args]
@@ -1202,8 +1330,26 @@ class Sym:
             r = self.new_op(shown, vals, at, res="fresh")
             self._after_mut(args, mut, r)
             return r
+        r = self.option_combinator(name, vals, at)
+        if r is not None:
+            return r
         gtxt = ("<" + ",".join(tga) + ">") if tga and last in ("parse", "collect", "try_into", "try_from", "sum", "from_str", "from_str_radix", "size_of") else ""
         return ("call", name + gtxt, (), tuple(vals))
+
+    def option_combinator(self, name, vals, at):
+        """Option/Result combinators with effect-free closures are the matches they abbreviate"""
+        def pure(f):
+            return (f[0] == "lam" and not f[3]) or f[0] in ("path", "ctor")
+        if name == "Option::map_or_else" and len(vals) == 3 and pure(vals[1]) and pure(vals[2]):
+            x = vals[0]
+            return self.mk_matchv(x, (("Some(_)", self.apply_value(vals[2], [("proj", x, "Some", 0)], at)), ("_", self.apply_value(vals[1], [], at))))
+        if name == "Option::map_or" and len(vals) == 3 and pure(vals[2]):
+            x = vals[0]
+            return self.mk_matchv(x, (("Some(_)", self.apply_value(vals[2], [("proj", x, "Some", 0)], at)), ("_", vals[1])))
+        if name == "Option::unwrap_or_else" and len(vals) == 2 and pure(vals[1]):
+            x = vals[0]
+            return self.mk_matchv(x, (("Some(_)", ("proj", x, "Some", 0)), ("_", self.apply_value(vals[1], [], at))))
+        return None
 
     def macro_user_args(self, n):
         """the caller-written expressions inside a macro expansion (nodes whose span is not from the expansion), in order"""
@@ -1260,6 +1406,9 @@ class Sym:
 
     def stable_name(self, f):
         from . import sites as S
+        if (f.get("impl_trait") or "") == "gamedig::socket::Socket":
+            # the concrete socket type is a feature-dependent alias (plain or capturing wrapper): name the trait method
+            return "socket::Socket::" + f["name"]
         return S.fn_display(f).split("gamedig::", 1)[-1]
 
     def is_pure(self, f):
@@ -1462,6 +1611,7 @@ class Printer:
         self.opn = {}
         self.loopn = {}
         self.scopen = {}
+        self.carn = {}
         self.depth = 0
         self.rows = []
         self.pending = []
@@ -1473,6 +1623,13 @@ class Printer:
         if i not in self.opn:
             self.opn[i] = len(self.opn) + 1
         return "$%d" % self.opn[i]
+
+    def carried(self, loop, k):
+        """carried variables are numbered per loop in order of first appearance (the header lists them first)"""
+        m = self.carn.setdefault(loop, {})
+        if k not in m:
+            m[k] = len(m)
+        return m[k]
 
     def scopename(self, i):
         if i not in self.scopen:
@@ -1511,9 +1668,9 @@ class Printer:
         if k == "bv":
             return "b%d_%d" % (v[1], v[2])
         if k == "phi":
-            return "%s.v%d" % (self.loopname(v[1]), v[2])
+            return "%s.v%d" % (self.loopname(v[1]), self.carried(v[1], v[2]))
         if k == "after":
-            return "%s.out%d" % (self.loopname(v[1]), v[2])
+            return "%s.out%d" % (self.loopname(v[1]), self.carried(v[1], v[2]))
         if k == "item":
             return "%s.item" % self.loopname(v[1])
         if k == "ref":
@@ -1550,7 +1707,7 @@ class Printer:
             return "(%s %s %s)" % (self.show(v[2]), v[1], self.show(v[3]))
         if k == "un":
             return "%s(%s)" % (v[1], self.show(v[2]))
-        if k == "cast":
+        if k in ("cast", "conv"):
             return "(%s as %s)" % (self.show(v[2]), v[1])
         if k == "ite":
             return "if %s {%s} else {%s}" % (self.show(v[1]), self.show(v[2]), self.show(v[3]))
@@ -1570,7 +1727,7 @@ class Printer:
                 self.nlam += 1
                 nm = "fn%d" % self.nlam
                 inner = Printer(self.s, select=self.select)
-                inner.opn, inner.loopn, inner.nlam, inner.seen_try, inner.scopen = self.opn, self.loopn, self.nlam, self.seen_try, self.scopen
+                inner.opn, inner.loopn, inner.nlam, inner.seen_try, inner.scopen, inner.carn = self.opn, self.loopn, self.nlam, self.seen_try, self.scopen, self.carn
                 inner.emit(list(v[3]), self.ctx + [nm])
                 self.nlam = inner.nlam
                 body = inner.show(v[4])
@@ -1642,7 +1799,7 @@ class Printer:
                 groups = []
                 for e in eff[i:j]:
                     sub = Printer(self.s, select=self.select)
-                    sub.opn, sub.loopn, sub.scopen, sub.seen_try, sub.nlam = self.opn, self.loopn, self.scopen, self.seen_try, self.nlam
+                    sub.opn, sub.loopn, sub.scopen, sub.seen_try, sub.nlam, sub.carn = self.opn, self.loopn, self.scopen, self.seen_try, self.nlam, self.carn
                     sub.emit1([e], ctx)
                     groups.append(sub.pending + sub.rows)
                 for g in sorted(groups):
@@ -1681,11 +1838,11 @@ class Printer:
                     self.emit(sub, ctx + ["match(%s)=>%s%s" % (sc, pat, " if " + self.show(g) if g is not None else "")])
             elif k == "loop":
                 ln = self.loopname(e[1])
-                hdr = "%s %s" % (e[2], self.show(e[3])) if e[3] is not None else e[2]
-                self.row(ctx, "%s: %s%s" % (ln, hdr, "".join(" ; v%d := %s" % (i, self.show(x)) for i, x in e[4])))
+                hdr = "for %s" % self.show(e[3]) if e[3] is not None else "loop"
+                self.row(ctx, "%s: %s%s" % (ln, hdr, "".join(" ; v%d := %s" % (self.carried(e[1], i), self.show(x)) for i, x in e[4])))
                 self.emit(e[5], ctx + [ln])
             elif k in ("break", "next"):
-                snap = "".join(" ; v%d := %s" % (i, self.show(x)) for i, x in e[2])
+                snap = "".join(" ; v%d := %s" % (self.carried(e[1], i), self.show(x)) for i, x in e[2])
                 if k == "next" and not snap:
                     continue
                 self.row(ctx, "%s%s" % (k, snap))
@@ -1707,7 +1864,7 @@ class Printer:
         for t in (self.s.tries if self.select is None else []):
             if id(t) not in self.seen_try:
                 p = Printer(self.s)
-                p.opn, p.loopn, p.scopen = dict(self.opn), dict(self.loopn), dict(self.scopen)
+                p.opn, p.loopn, p.scopen, p.carn = dict(self.opn), dict(self.loopn), dict(self.scopen), {k_: dict(v_) for k_, v_ in self.carn.items()}
                 extra.append("- | unused-but-checked %s?" % p.show(t[1]))
         self.rows.extend(self.pending)
         del self.pending[:]
